@@ -187,12 +187,18 @@ def bool_constructs(rep, known):
     typed = [('{"a": 1, "b": 2}.filter(k, k != "z")', ct.ListType), ("{}.filter(k, true)", ct.ListType), ("l.filter(x, true)", ct.ListType), ("l.filter(x, false)", ct.ListType),
              ('{"a": 1}.map(k, k)', ct.ListType), ("l.map(x, x)", ct.ListType), ("[].map(x, x)", ct.ListType), ('{"a": 1}.all(k, true)', ct.BoolType),
              ('{"a": 1}.exists_one(k, true)', ct.BoolType), ('type({"a": 1}.filter(k, true)) == list', ct.BoolType), ("type(l.filter(x, true)) == list", ct.BoolType),
-             ("type(null) == null_type", ct.BoolType), ("type([null][0]) == null_type", ct.BoolType)]
+             ("type(null) == null_type", ct.BoolType), ("type([null][0]) == null_type", ct.BoolType),
+             # type names used as VALUES (not called): every name denotes its type object, `type` included
+             ("type(type(1)) == type", ct.BoolType), ("type(int) == type", ct.BoolType), ("type(1) == int", ct.BoolType), ("[int, string][0] == int", ct.BoolType),
+             ("type(type) == type", ct.BoolType), ('type("a") == string', ct.BoolType), ("type(1u) == uint", ct.BoolType), ("type(1.5) == double", ct.BoolType),
+             ("type(true) == bool", ct.BoolType), ('type(b"a") == bytes', ct.BoolType), ("type([1]) == list", ct.BoolType), ('type({"a": 1}) == map', ct.BoolType),
+             ('type(timestamp("2020-01-01T00:00:00Z")) == timestamp', ct.BoolType), ('type(duration("1s")) == duration', ct.BoolType),
+             ('type(timestamp("2020-01-02T00:00:00Z") - timestamp("2020-01-01T00:00:00Z")) == duration', ct.BoolType)]
     for rn, env in envs.items():
         for text, want in typed:
             try:
                 v = env.program(env.compile(text)).evaluate(dict(act))
-                ok, obs = type(v) is want and (not text.startswith("type(") or bool(v)), f"{type(v).__name__} {v!r}"
+                ok, obs = type(v) is want and (" == " not in text or bool(v)), f"{type(v).__name__} {v!r}"
             except Exception as ex:
                 ok, obs = False, f"{type(ex).__name__}: {str(ex)[:80]}"
             o = V.table_obl(rep, f"result-type[{rn}:{text}]", f"celpy.{'InterpretedRunner' if rn == 'interpreted' else 'CompiledRunner'}",
